@@ -25,6 +25,13 @@ var props = map[string]propCfg{
 			"autocomplete / history-autosuggest off (their documented purpose is to act on redisplay); keyboard-macro commands are left to C18; vi-select-inside is only reachable through its prefix bind",
 			"two known findings are excluded by construction (schedules always cut after C-c / C-g; vi operator + character text objects / j,k replaced) and reported from dedicated regress cases",
 		}},
+	"C06": {ID: "C06", Level: "exploration",
+		Tests: []testCfg{{Name: "TestC06", Quick: 6400, Thorough: 200000, QShards: 16, TShards: 16}},
+		Assumptions: []string{
+			"history-autosuggest / autocomplete / autopairs off (forward motions accept the suggestion by documented design)",
+			"clause (c) is judged only when the named command actually ran from a state at rest (no local keymap, no pending argument, numeric-argument keys did not edit the buffer)",
+			"Cursor.Pos() clamps itself: the range clause mostly checks that Line and Cursor agree; the vi and selection clauses carry the weight",
+		}},
 	"C07": {ID: "C07", Level: "exploration",
 		Tests: []testCfg{{Name: "TestC07", Quick: 4800, Thorough: 100000, QShards: 16, TShards: 16}},
 		Assumptions: []string{
